@@ -30,6 +30,11 @@ pub struct RunSummary {
     pub dump: Option<String>,
 }
 
+/// wall-clock watchdog per child (ms); a timeout is a harness error, never a verdict
+pub fn child_timeout_ms() -> i32 {
+    std::env::var("DST_CHILD_TIMEOUT_MS").ok().and_then(|s| s.parse().ok()).unwrap_or(60_000)
+}
+
 pub fn fnv64(h: u64, bytes: &[u8]) -> u64 {
     let mut h = h;
     for b in bytes {
@@ -393,7 +398,7 @@ pub fn batch(prop: &str, base_seed: u64, n_runs: u64, workers: usize, wall_cap_s
                     }
                     let seed = run_seed(base_seed, prop, i);
                     let plan = crate::gen::gen_plan(prop, seed, i);
-                    match run_forked(&plan, None, false, props, false, 60_000) {
+                    match run_forked(&plan, None, false, props, false, child_timeout_ms()) {
                         ChildResult::Crashed(m) => {
                             agg.runs += 1;
                             if agg.crashed.len() < 5 {
@@ -509,7 +514,7 @@ pub fn minimise(plan: &Plan, v: &Violation, props: &[String], budget: usize) -> 
     let mut cur = plan.clone();
     let fails = |p: &Plan, ch: Option<Vec<u32>>, tries: &mut usize| -> Option<(RunSummary, Violation)> {
         *tries += 1;
-        match run_forked(p, ch, true, props, false, 60_000) {
+        match run_forked(p, ch, true, props, false, child_timeout_ms()) {
             ChildResult::Ok(s) => same_violation(&s, &v.prop, &v.rule, &v.fingerprint).map(|x| (s, x)),
             ChildResult::Crashed(_) => None,
         }
